@@ -344,7 +344,19 @@ def _exec_threads(lib, case, V, stats):
             for op in script:
                 e = op["e"]
                 try:
-                    if op["op"] == "CALL":
+                    if op["op"] == "FAIL":
+                        # this thread's own scorer raises at its k-th call; the other threads
+                        # must not notice
+                        inner = entries.mk_scorer(lib, pool[e].get("scorer")) or \
+                            lib["ctparse"]._DEFAULT_SCORER
+                        try:
+                            r = lib["ctparse"].ctparse(
+                                pool[e]["text"],
+                                **entries.kwargs(lib, pool[e], FailingScorer(inner, op["k"])))
+                            out.append(("call", e, {"call": core.cand_key(r)}))
+                        except InjectedFailure:
+                            stats["faults"]["callback_raise"] += 1
+                    elif op["op"] == "CALL":
                         r = lib["ctparse"].ctparse(pool[e]["text"], **entries.kwargs(lib, pool[e]))
                         out.append(("call", e, {"call": core.cand_key(r)}))
                     else:
@@ -579,11 +591,11 @@ def plan(prop, tier, seed):
             continue
         m = oracle(e, "gen", hashseeds[:2])
         n = len(m["value"].get("stream", [])) if "stream" in m["value"] else None
-        if n is not None and 1 <= n <= (5 if quick else 6):
+        if n is not None and 1 <= n <= (3 if quick else 6):
             short_entries.append((e, n + 1))  # +1: the step that observes the end
     r = core.stream(base, "pairs")
     r.shuffle(short_entries)
-    n_pairs = 6 if quick else 60
+    n_pairs = 8 if quick else 60
     for i in range(min(n_pairs, len(short_entries) // 2)):
         (e1, a), (e2, b) = short_entries[2 * i], short_entries[2 * i + 1]
         cases.append({"kind": "pairs", "pool": [e1, e2], "lens": [a, b], "hashseeds": hashseeds})
@@ -592,7 +604,8 @@ def plan(prop, tier, seed):
         r = core.stream(core.derive_seed(base, "threads", i), "sched")
         pool = r.sample(big_pool, r.randint(2, 4))
         n_threads = r.choice([2, 3, 4, 8])
-        scripts = [[{"op": r.choice(["CALL", "GEN"]), "e": r.randrange(len(pool))}
+        scripts = [[{"op": r.choice(["CALL", "GEN", "CALL", "GEN", "FAIL"]),
+                     "e": r.randrange(len(pool)), "k": r.choice([1, 2, 5, 9, 17])}
                     for _ in range(r.randint(1, 2))] for _ in range(n_threads)]
         cases.append({"kind": "threads", "pool": pool, "scripts": scripts, "hashseeds": hashseeds,
                       "sched": {"seed": r.randrange(1 << 40),
